@@ -5,7 +5,10 @@ Line-protocol driver for the C03 models (metric block merge + family compaction)
   wr <blk>                                   -> ok <canonical blk read back from the model block writer's output>
   reset                                       -> ok
   flush <metric>=<blk> <metric>=<blk> ...     -> ok L0:<files> L1:<files>
-  compact <threshold> <maxFileSize> <k:len,k:len,...|-> [failAt]  -> <skipped|moved|merged|fail> L0:<files> L1:<files>
+  compact <threshold> <maxFileSize> <k:len,k:len,...|-> [failAt|- [open:<i>:<enoent|io>]]  -> <skipped|moved|merged|fail> L0:<files> L1:<files>
+                                                 (failAt: the output file with that index cannot be created; open: the open of
+                                                 the picked input at position i — level-0 files, then the picked level-1 files —
+                                                 fails with ENOENT / another error; error branch policy = generated `openErrorAborts`)
   view <metric>                               -> ok S:<ids> F:<id:ty,...> V:<s/f/t=v ...>
   dmerge <dmg;dmg;...> <blk> <blk> ...        -> ok <canonical blk> | err merge      (damaged inputs; one <dmg> per block:
                                                  `-` intact, `h` header unreadable, `b<hk>,<hk>` series buckets unreadable)
@@ -24,6 +27,7 @@ import LinVerif.Util.Proto
 import LinVerif.Model.Compact
 import LinVerif.Model.BlockWriter
 import LinVerif.Model.MergeLoop
+import LinVerif.Model.C03Inputs
 import LinVerif.Generated.C03
 
 namespace LinVerif.Driver.C03
@@ -197,11 +201,23 @@ def step (st : Family Int) (ws : List String) : Family Int × String :=
     | some es => let s := flush st es; (s, "ok " ++ showLevels s)
     | none => (st, "bad-op")
   | "compact" :: th :: mx :: sz :: rest =>
-    -- optional 5th word: index of the output file whose creation fails (injected fault)
-    let failAt? : Option (Option Nat) := match rest with
-      | [] => some none
-      | [k] => (k.toNat?).map some
+    -- optional 5th word: index of the output file whose creation fails (injected fault) or `-`;
+    -- optional 6th word: `open:<i>:<kind>` = the open of the i-th picked input fails
+    let parseFail : String → Option (Option Nat) := fun k => if k = "-" then some none else (k.toNat?).map some
+    let parseOpen : String → Option (Nat → C03Inputs.OpenRes) := fun w =>
+      match w.splitOn ":" with
+      | ["open", i, "enoent"] => (i.toNat?).map (fun i => C03Inputs.faultAt i .notExist)
+      | ["open", i, "io"] => (i.toNat?).map (fun i => C03Inputs.faultAt i .ioError)
       | _ => none
+    let faults? : Option (Option Nat × (Nat → C03Inputs.OpenRes)) := match rest with
+      | [] => some (none, C03Inputs.noFault)
+      | [k] => (parseFail k).map (fun f => (f, C03Inputs.noFault))
+      | [k, ow] => match parseFail k, parseOpen ow with
+        | some f, some pl => some (f, pl)
+        | _, _ => none
+      | _ => none
+    let failAt? := faults?.map (·.1)
+    let pl := match faults? with | some (_, pl) => pl | none => C03Inputs.noFault
     match th.toNat?, mx.toNat?, parseSizes sz, failAt? with
     | some th, some mx, some sizes, some failAt =>
       -- a key without announced size makes the split undefined: answered by `bad-op` below
@@ -209,7 +225,7 @@ def step (st : Family Int) (ws : List String) : Family Int × String :=
                               size := fun k _ => match lookup sizes k with | some n => n | none => 0,
                               shuffle := id, rebind := Generated.C03.streamWriterRebinds,
                               tolerant := Generated.C03.scannerToleratesEmptyBucket, failAt := failAt }
-      let (s, o) := compact aggInt p st
+      let (s, o) := C03Inputs.compactF aggInt (C03Inputs.policyOf Generated.C03.openErrorAborts) pl p st
       let outKeys := (mergedEntries aggInt p (st.l0 ++ pickUp st.l0 st.l1)).map (·.1)
       let sized := outKeys.all (fun k => (lookup sizes k).isSome)
       match o with
